@@ -299,3 +299,31 @@ package keeper
 //@   invariant true
 //@ loop #3
 //@   invariant true
+
+// ---------------------------------------------------------------------------------------------
+// C06 (eligible = has a key, opted in, NOT JAILED): an operator is handed to the validator-set computation only if it is
+// active for the chain's AVS - opted in, not opted out and not jailed (IsActive, under contract above) - and each one
+// that is active is handed on, with its own key.
+//@ func (Keeper).GetActiveOperatorsForChainID
+//@   flag pure=IsAVSByChainID,GetOperatorsForChainID,Logger
+//@   flag noframe
+//@ loop #1
+//@   invariant -1 <= rangeindex && rangeindex < len(res_GetOperatorsForChainID_0) && len(activeOperator) == len(activePks)
+//@   step[C06.gao.active] (res_IsActive_0 ==> len(activeOperator) == len(prev_activeOperator) + 1 &&
+//@        activeOperator[len(prev_activeOperator)] == res_GetOperatorsForChainID_0[rangeindex]) &&
+//@        (!res_IsActive_0 ==> activeOperator == prev_activeOperator && activePks == prev_activePks)
+
+// C07 (the three key indexes always agree; a removed key is pruned when its removal completes): completing a key
+// removal deletes the operator's forward entries AND the reverse lookup of the consensus address of the very key that
+// is being removed, so that the address stops resolving and the key becomes available again.
+//@ define opRevKey(chain, addr) = cat(bytelit(g("x/operator/types.BytePrefixForChainIDAndConsKeyToOperator")), cat(u64be(len(chain)), chain), addr)
+//@ define opFwdKey(op, chain) = cat(bytelit(g("x/operator/types.BytePrefixForOperatorAndChainIDToConsKey")), op, u64be(len(chain)), chain)
+//@ define opFwd2Key(chain, op) = cat(bytelit(g("x/operator/types.BytePrefixForChainIDAndOperatorToConsKey")), cat(u64be(len(chain)), chain), op)
+//@ define opRemKey(op, chain) = cat(bytelit(g("x/operator/types.BytePrefixForOperatorKeyRemovalForChainID")), op, u64be(len(chain)), chain)
+//@ func (Keeper).CompleteOperatorKeyRemovalForChainID
+//@   flag pure=IsOperator,IsAVSByChainID,IsOperatorRemovingKeyFromChainID,getOperatorConsKeyForChainID,ToConsAddr
+//@   modifies store(ctx, "operator")
+//@   ensures[C07.cokr.fwd] err == nil ==> get(ctx, "operator", opFwdKey(opAccAddr, chainID)) == nil &&
+//@        get(ctx, "operator", opFwd2Key(chainID, opAccAddr)) == nil && get(ctx, "operator", opRemKey(opAccAddr, chainID)) == nil
+//@   ensures[C07.cokr.rev] err == nil ==> defined(res_ToConsAddr_0) && get(ctx, "operator", opRevKey(chainID, res_ToConsAddr_0)) == nil
+//@   ensures[C07.cokr.atomic] err != nil ==> state(ctx) == old(state(ctx))
